@@ -1,10 +1,12 @@
 package c02
 
-// A world is one 4-validator cluster of real consensus.ConsensusState instances, each on
-// its own real LinkApplication (appx), driven synchronously through hook H1. At the
-// target height the proposer of round 0 is taken over by the harness ("Byzantine"): its
-// honestly built block is intercepted, corrupted, re-hashed, re-split, re-signed with the
-// proposer's real key and served to the three other (correct) validators.
+// A world is one cluster of real consensus.ConsensusState instances (four validators of
+// equal power, or any power vector), each on its own real LinkApplication (appx), driven
+// synchronously through hook H1. At the target height the proposer of round 0 is taken
+// over by the harness ("Byzantine"): its honestly built block is intercepted, corrupted,
+// re-hashed, re-split, re-signed with the proposer's real key and served to the other
+// (correct) validators; in a later round in which it is the proposer again it may serve
+// the same block or a second one.
 
 import (
 	"bytes"
@@ -12,6 +14,7 @@ import (
 	"os"
 	"os/signal"
 	"path/filepath"
+	"sort"
 	"syscall"
 	"time"
 
@@ -81,18 +84,32 @@ type world struct {
 	isTrie bool
 	kw     *killWatch
 
-	H       uint64 // target height
-	byz     int    // index of the validator the harness plays at height H
-	honest  []int  // abstract n1..n3 -> node index
+	n       int     // validators
+	powers  []int64 // voting power per node index
+	total   int64
+	H       uint64   // target height
+	byz     int      // index of the validator the harness plays at height H
+	honest  []int    // abstract n1..nk -> node index
+	names   []string // "n1".."nk"
+	props   []int    // node index of the proposer of round r of height H
+	setupID string   // "<Byzantine power>|<power of n1>,<powers of n2.. ascending>"
 	honProp *cs.ProposalMessage
 	honBlk  []byte // encoded honest block of (H, 0)
 	status  cs.NewStatus
 
-	// the Byzantine block
+	// the Byzantine block B (the first one)
 	bad      *types.Block
 	badParts *types.PartSet
 	badID    types.BlockID
 	badProp  *types.Proposal
+	// every block the Byzantine validator built: "B", "B2"
+	bz map[string]*byzBlock
+	// part sets by header hash (to serve a node that waits for a block), names of the
+	// blocks correct proposers built ("G<round>")
+	known  map[string]*knownBlock
+	gNames map[string]string
+	// the rounds' correct proposers always build distinct blocks (one more transaction per round)
+	distinctG bool
 
 	// votes the correct nodes emitted at height H, per node index and round
 	votes map[int]map[int]map[byte]*types.Vote
@@ -104,16 +121,37 @@ type world struct {
 	steps     int
 }
 
-func newWorld(dir string, isTrie bool, kw *killWatch) (w *world, err error) {
+// byzBlock is one block built by the Byzantine validator.
+type byzBlock struct {
+	name  string
+	blk   *types.Block // as a receiver decodes it
+	parts *types.PartSet
+	id    types.BlockID
+	flags []string // clauses of full validity it violates
+	rel   string   // "first" | "twin" | "fresh"
+	how   string   // concrete construction
+}
+
+type knownBlock struct {
+	parts *types.PartSet
+	from  int
+}
+
+// newWorld builds the cluster; powers == nil: four validators of power 1 each.
+func newWorld(dir string, isTrie bool, kw *killWatch, powers []int64) (w *world, err error) {
 	defer func() {
 		if r := recover(); r != nil {
 			err = fmt.Errorf("building the cluster: %v", r)
 		}
 	}()
-	w = &world{dir: dir, isTrie: isTrie, kw: kw, acct: appx.NewAccount(1), other: appx.NewAccount(2),
+	if len(powers) == 0 {
+		powers = []int64{1, 1, 1, 1}
+	}
+	w = &world{dir: dir, isTrie: isTrie, kw: kw, acct: appx.NewAccount(1), other: appx.NewAccount(2), n: len(powers),
+		bz: map[string]*byzBlock{}, known: map[string]*knownBlock{}, gNames: map[string]string{},
 		votes: map[int]map[int]map[byte]*types.Vote{}, laterProp: map[int][]cs.ConsensusMessage{}, kills: map[int]int{}, restarts: map[int]int{}, reapplied: map[int]bool{}}
-	w.envs = make([]*appx.Env, 4)
-	w.cl, err = cluster.New(cluster.Options{N: 4, ChainID: appx.ChainID,
+	w.envs = make([]*appx.Env, w.n)
+	w.cl, err = cluster.New(cluster.Options{N: w.n, Powers: powers, ChainID: appx.ChainID,
 		MakeApp: func(i int, c *cluster.Cluster) (cs.BlockChainApp, *cluster.MockApp, cs.Mempool) {
 			d := appx.NewMemDBs(filepath.Join(dir, fmt.Sprintf("n%d", i)))
 			if e := appx.InitGenesis(d, isTrie, []appx.Alloc{{Addr: w.acct.Addr, Balance: appx.LKC(1000000)}}); e != nil {
@@ -126,7 +164,19 @@ func newWorld(dir string, isTrie bool, kw *killWatch) (w *world, err error) {
 			w.envs[i] = env
 			return env.App, nil, env.MP
 		}})
-	return w, err
+	if err != nil {
+		return w, err
+	}
+	w.powers = make([]int64, w.n)
+	for i := range w.powers {
+		_, v := w.cl.ValSet.GetByAddress(w.cl.PVs[i].GetAddress())
+		if v == nil {
+			return w, fmt.Errorf("node %d is not a validator", i)
+		}
+		w.powers[i] = v.VotingPower
+		w.total += v.VotingPower
+	}
+	return w, nil
 }
 
 func (w *world) close() {
@@ -152,7 +202,13 @@ func (w *world) addTxs(n int) error {
 	return nil
 }
 
-func (w *world) all() []int { return []int{0, 1, 2, 3} }
+func (w *world) all() []int {
+	out := make([]int, w.n)
+	for i := range out {
+		out[i] = i
+	}
+	return out
+}
 
 // fireStep fires node i's pending timeout for (height, round, step), if it has one.
 func (w *world) fireStep(i int, h uint64, r int, st cstypes.RoundStepType) bool {
@@ -181,18 +237,38 @@ func (w *world) prune(h uint64) {
 	}
 }
 
-// runHonestHeight lets all four (correct) nodes decide height h in lock step; withRound1
+// runHonestHeight lets all (correct) nodes decide height h in lock step; withRound1
 // loses the round-0 proposal on the network so that the block is decided in round 1.
 func (w *world) runHonestHeight(h uint64, withRound1 bool) error {
-	if err := w.addTxs(1 + int(h%2)); err != nil {
+	if _, err := w.openHeight(h, 1+int(h%2)); err != nil {
 		return err
+	}
+	return w.decideOpened(h, withRound1)
+}
+
+// openHeight offers txs transfers and starts height h at every node (the proposer of
+// round 0 builds its block and queues its proposal); it returns the proposer.
+func (w *world) openHeight(h uint64, txs int) (int, error) {
+	if err := w.addTxs(txs); err != nil {
+		return -1, err
 	}
 	w.prune(h)
 	for _, i := range w.all() {
 		if !w.fireStep(i, h, 0, cstypes.RoundStepNewHeight) {
-			return fmt.Errorf("node %d has no NewHeight timeout for height %d", i, h)
+			return -1, fmt.Errorf("node %d has no NewHeight timeout for height %d", i, h)
 		}
 	}
+	p := w.cl.ViewOf(w.cl.Nodes[0]).Proposer
+	for _, i := range w.all() {
+		if q := w.cl.ViewOf(w.cl.Nodes[i]).Proposer; q != p {
+			return -1, fmt.Errorf("nodes disagree on the proposer of (%d,0): %d vs %d", h, p, q)
+		}
+	}
+	return p, nil
+}
+
+// decideOpened lets the correct cluster decide the height openHeight started.
+func (w *world) decideOpened(h uint64, withRound1 bool) error {
 	if withRound1 {
 		// the proposer's proposal and parts are lost; votes travel
 		p := w.cl.ViewOf(w.cl.Nodes[0]).Proposer
@@ -257,29 +333,78 @@ func (w *world) runHonestHeight(h uint64, withRound1 bool) error {
 	return nil
 }
 
+// proposersOf computes the proposers of rounds 0..maxRound of the height the status
+// belongs to, the way enterNewRound rotates the validator set.
+func (w *world) proposersOf(st cs.NewStatus, maxRound int) []int {
+	out := make([]int, maxRound+1)
+	for r := 0; r <= maxRound; r++ {
+		vs := st.Validators.Copy()
+		if r > 0 {
+			vs.IncrementAccum(r)
+		}
+		out[r] = w.cl.IndexOf(vs.GetProposer().Address)
+	}
+	return out
+}
+
+// idFor names the validator set as the model does, were node p the Byzantine validator
+// and q the proposer of round 1: "<power of p>|<power of q>,<the other powers ascending>".
+func (w *world) idFor(p, q int) (string, []int) {
+	var others []int
+	for _, i := range w.all() {
+		if i != p && i != q {
+			others = append(others, i)
+		}
+	}
+	sort.SliceStable(others, func(a, b int) bool { return w.powers[others[a]] < w.powers[others[b]] })
+	id := fmt.Sprintf("%d|%d", w.powers[p], w.powers[q])
+	for _, i := range others {
+		id += fmt.Sprintf(",%d", w.powers[i])
+	}
+	return id, others
+}
+
 // takeOver starts height H, intercepts the round-0 proposer's own proposal and makes it
-// the Byzantine validator. perm orders the three correct nodes after the round-1 proposer.
-func (w *world) takeOver(H uint64, perm []int, txs int) error {
-	w.H = H
+// the Byzantine validator. perm swaps the second and third correct node (equal powers);
+// rotation names the correct nodes by the round they propose in (n1: round 1, n2: round
+// 2, ...; equal powers) instead of by power. eligible (optional) says which validator-set
+// ids the model knows: heights are decided honestly until the proposer of round 0 of the
+// next one is an eligible Byzantine validator (below a third of the power).
+func (w *world) takeOver(H uint64, perm []int, txs int, maxRound int, rotation bool, eligible map[string]bool) error {
 	if txs <= 0 {
 		txs = 2
 	}
-	if err := w.addTxs(txs); err != nil {
-		return err
-	}
-	w.prune(H)
-	for _, i := range w.all() {
-		if !w.fireStep(i, H, 0, cstypes.RoundStepNewHeight) {
-			return fmt.Errorf("node %d has no NewHeight timeout for height %d", i, H)
+	for ; ; H++ {
+		p, err := w.openHeight(H, txs)
+		if err != nil {
+			return err
+		}
+		st := w.cl.Nodes[(p+1)%w.n].CS.VerifStatus()
+		nr := maxRound
+		if nr < w.n {
+			nr = w.n
+		}
+		props := w.proposersOf(st, nr)
+		if props[0] != p {
+			return fmt.Errorf("the rotation computed for (%d,0) names %d, the nodes expect %d", H, props[0], p)
+		}
+		ok := 3*w.powers[p] < w.total && len(props) > 1 && props[1] != p && props[1] >= 0
+		if ok && eligible != nil {
+			id, _ := w.idFor(p, props[1])
+			ok = eligible[id]
+		}
+		if ok {
+			w.H, w.byz, w.props, w.status = H, p, props, st
+			break
+		}
+		if eligible == nil || H > 12 {
+			return fmt.Errorf("no eligible Byzantine proposer up to height %d (powers %v)", H, w.powers)
+		}
+		if err := w.decideOpened(H, false); err != nil {
+			return err
 		}
 	}
-	p := w.cl.ViewOf(w.cl.Nodes[0]).Proposer
-	for _, i := range w.all() {
-		if q := w.cl.ViewOf(w.cl.Nodes[i]).Proposer; q != p {
-			return fmt.Errorf("nodes disagree on the proposer of (%d,0): %d vs %d", H, p, q)
-		}
-	}
-	w.byz = p
+	p := w.byz
 	var parts []*types.Part
 	for {
 		m, ok := w.cl.PopInternal(p)
@@ -294,7 +419,7 @@ func (w *world) takeOver(H uint64, perm []int, txs int) error {
 		}
 	}
 	if w.honProp == nil || len(parts) == 0 {
-		return fmt.Errorf("proposer %d of (%d,0) produced no proposal", p, H)
+		return fmt.Errorf("proposer %d of (%d,0) produced no proposal", p, w.H)
 	}
 	ps := types.NewPartSetFromHeader(w.honProp.Proposal.BlockPartsHeader)
 	for _, pt := range parts {
@@ -310,31 +435,43 @@ func (w *world) takeOver(H uint64, perm []int, txs int) error {
 		return err
 	}
 	w.honBlk = buf.Bytes()
-	// the correct nodes: the proposer of round 1 first (the model's n1), the others as permuted
-	var rest []int
-	for _, i := range w.all() {
-		if i != p {
-			rest = append(rest, i)
-		}
-	}
-	w.status = w.cl.Nodes[rest[0]].CS.VerifStatus()
-	vs := w.status.Validators.Copy()
-	vs.IncrementAccum(1)
-	q := w.cl.IndexOf(vs.GetProposer().Address)
-	if q == p || q < 0 {
-		return fmt.Errorf("round-1 proposer is %d (Byzantine %d)", q, p)
-	}
+	// the correct nodes: the proposer of round 1 first (the model's n1) ...
+	q := w.props[1]
+	id, others := w.idFor(p, q)
+	w.setupID = id
 	w.honest = []int{q}
-	var others []int
-	for _, i := range rest {
-		if i != q {
-			others = append(others, i)
+	if rotation {
+		// ... then the proposers of rounds 2, 3, ..; the Byzantine validator's turn comes again after everybody's
+		for r := 2; r < w.n; r++ {
+			if r >= len(w.props) {
+				return fmt.Errorf("rotation naming needs the proposers of %d rounds", w.n)
+			}
+			w.honest = append(w.honest, w.props[r])
+		}
+		seen := map[int]bool{p: true}
+		for _, i := range w.honest {
+			if seen[i] {
+				return fmt.Errorf("the proposers of rounds 0..%d are not distinct: %v", w.n-1, w.props)
+			}
+			seen[i] = true
+		}
+	} else {
+		// ... then the others by power (and index)
+		if perm != nil && perm[0] == 1 && len(others) >= 2 && w.powers[others[0]] == w.powers[others[1]] {
+			others[0], others[1] = others[1], others[0]
+		}
+		w.honest = append(w.honest, others...)
+	}
+	w.names = nil
+	for k := range w.honest {
+		w.names = append(w.names, fmt.Sprintf("n%d", k+1))
+	}
+	// the block a correct proposer builds in a later round always differs from the Byzantine one
+	if w.distinctG {
+		if err := w.addTxs(1); err != nil {
+			return err
 		}
 	}
-	if perm != nil && perm[0] == 1 {
-		others[0], others[1] = others[1], others[0]
-	}
-	w.honest = append(w.honest, others...)
 	return nil
 }
 
@@ -347,23 +484,34 @@ func (w *world) decodeHonest() (*types.Block, error) {
 	return b, nil
 }
 
-// forge finishes the Byzantine block: split with the status' part size, name it by what a
+// forge finishes the (first) Byzantine block: split with the status' part size, name it by what a
 // receiver computes after decoding, sign the proposal with the proposer's real key.
 func (w *world) forge(b *types.Block) (err error) {
+	bb, err := w.forgeAs("B", b)
+	if err != nil {
+		return err
+	}
+	w.bad, w.badParts, w.badID = bb.blk, bb.parts, bb.id
+	w.badProp = w.cl.MakeProposal(w.byz, w.H, 0, w.badParts, -1, types.BlockID{})
+	return nil
+}
+
+// forgeAs registers a block the Byzantine validator built under the model's name.
+func (w *world) forgeAs(name string, b *types.Block) (bb *byzBlock, err error) {
 	defer func() {
 		if r := recover(); r != nil {
 			err = fmt.Errorf("forging the block: %v", r)
 		}
 	}()
-	w.badParts = b.MakePartSet(w.status.ConsensusParams.BlockGossip.BlockPartSizeBytes)
+	ps := b.MakePartSet(w.status.ConsensusParams.BlockGossip.BlockPartSizeBytes)
 	var recv *types.Block
-	if _, err := ser.DecodeReader(w.badParts.GetReader(), &recv, int64(w.status.ConsensusParams.BlockSize.MaxBytes)); err != nil {
-		return fmt.Errorf("the forged block does not decode: %v", err)
+	if _, err := ser.DecodeReader(ps.GetReader(), &recv, int64(w.status.ConsensusParams.BlockSize.MaxBytes)); err != nil {
+		return nil, fmt.Errorf("the forged block does not decode: %v", err)
 	}
-	w.bad = recv
-	w.badID = types.BlockID{Hash: recv.Hash(), PartsHeader: w.badParts.Header()}
-	w.badProp = w.cl.MakeProposal(w.byz, w.H, 0, w.badParts, -1, types.BlockID{})
-	return nil
+	bb = &byzBlock{name: name, blk: recv, parts: ps, id: types.BlockID{Hash: recv.Hash(), PartsHeader: ps.Header()}}
+	w.bz[name] = bb
+	w.known[string(ps.Header().Hash)] = &knownBlock{parts: ps, from: w.byz}
+	return bb, nil
 }
 
 // ---- steps of the correct nodes ---------------------------------------------------
@@ -396,10 +544,21 @@ func (w *world) popAll(i int) {
 		case *cs.ProposalMessage:
 			if x.Proposal.Height == w.H {
 				w.laterProp[x.Proposal.Round] = append(w.laterProp[x.Proposal.Round], m)
+				// a block a correct proposer built in this round (unless it re-proposes a block seen before)
+				k := string(x.Proposal.BlockPartsHeader.Hash)
+				if w.known[k] == nil {
+					w.known[k] = &knownBlock{parts: types.NewPartSetFromHeader(x.Proposal.BlockPartsHeader), from: i}
+					w.gNames[k] = fmt.Sprintf("G%d", x.Proposal.Round)
+				}
 			}
 		case *cs.BlockPartMessage:
 			if x.Height == w.H {
 				w.laterProp[x.Round] = append(w.laterProp[x.Round], m)
+				for _, kb := range w.known {
+					if kb.from == i && !kb.parts.IsComplete() {
+						kb.parts.AddPart(x.Part)
+					}
+				}
 			}
 		}
 	}
@@ -426,45 +585,63 @@ func (w *world) deliver(i int, m cs.ConsensusMessage, from int) {
 	w.steps++
 }
 
-// recvByz: proposal and every part of B reach node i.
-func (w *world) recvByz(i int) {
-	w.deliver(i, &cs.ProposalMessage{Proposal: w.badProp}, w.byz)
-	for k := 0; k < w.badParts.Total(); k++ {
-		w.deliver(i, &cs.BlockPartMessage{Height: w.H, Round: 0, Part: w.badParts.GetPart(k)}, w.byz)
+// recvByz: proposal and every part of B reach node i (round 0).
+func (w *world) recvByz(i int) { w.recvByzBlock(i, "B", 0) }
+
+// recvByzBlock: the Byzantine proposer's proposal of round r for its block `name` and
+// every part of it reach node i.
+func (w *world) recvByzBlock(i int, name string, r int) {
+	bb := w.bz[name]
+	prop := w.badProp
+	if name != "B" || r != 0 {
+		prop = w.cl.MakeProposal(w.byz, w.H, r, bb.parts, -1, types.BlockID{})
 	}
-	if rs := w.cl.Nodes[i].CS.GetRoundState(); rs.Height == w.H && rs.Round == 0 && rs.Step == cstypes.RoundStepPropose && w.cl.Nodes[i].Failure == nil {
+	w.deliver(i, &cs.ProposalMessage{Proposal: prop}, w.byz)
+	for k := 0; k < bb.parts.Total(); k++ {
+		w.deliver(i, &cs.BlockPartMessage{Height: w.H, Round: r, Part: bb.parts.GetPart(k)}, w.byz)
+	}
+	if rs := w.cl.Nodes[i].CS.GetRoundState(); rs.Height == w.H && rs.Round == r && rs.Step == cstypes.RoundStepPropose && w.cl.Nodes[i].Failure == nil {
 		// the block was dropped on receipt (undecodable, incomplete, foreign recover flag): the
 		// node keeps waiting for a proposal until its propose timeout
-		w.fireStep(i, w.H, 0, cstypes.RoundStepPropose)
+		w.fireStep(i, w.H, r, cstypes.RoundStepPropose)
 	}
 	w.popAll(i)
 }
 
-func (w *world) timeoutPropose(i int) {
-	w.fireStep(i, w.H, 0, cstypes.RoundStepPropose)
+func (w *world) timeoutPropose(i int) { w.timeoutProposeAt(i, 0) }
+
+func (w *world) timeoutProposeAt(i int, r int) {
+	w.fireStep(i, w.H, r, cstypes.RoundStepPropose)
 	w.popAll(i)
 }
 
 // recvHonest: the correct proposer's proposal of round r reaches node i (the proposer
 // itself handles its own copy).
 func (w *world) recvHonest(i int, r int) {
-	if i == w.honest[0] {
+	if i == w.props[r] {
 		w.popAll(i)
 		return
 	}
 	for _, m := range w.laterProp[r] {
-		w.deliver(i, m, w.honest[0])
+		w.deliver(i, m, w.props[r])
 	}
 	w.popAll(i)
 }
 
 func (w *world) byzVote(r int, typ byte) *cs.VoteMessage {
-	return &cs.VoteMessage{Vote: w.cl.MakeVote(w.byz, w.status.Validators, w.H, r, typ, w.badID)}
+	return w.byzVoteFor(r, typ, w.badID)
+}
+
+func (w *world) byzVoteFor(r int, typ byte, id types.BlockID) *cs.VoteMessage {
+	return &cs.VoteMessage{Vote: w.cl.MakeVote(w.byz, w.status.Validators, w.H, r, typ, id)}
 }
 
 // recvVotes: every vote of (r, typ) - the other correct nodes' and the Byzantine one for B -
 // reaches node i; a wait step that remains is ended by its timeout.
-func (w *world) recvVotes(i int, r int, typ byte) {
+func (w *world) recvVotes(i int, r int, typ byte) { w.recvVotesWith(i, r, typ, w.byzVote(r, typ)) }
+
+// recvVotesWith: ... with the given vote of the Byzantine validator (nil: it does not vote).
+func (w *world) recvVotesWith(i int, r int, typ byte, byz *cs.VoteMessage) {
 	for _, j := range w.honest {
 		if j == i {
 			continue
@@ -473,7 +650,9 @@ func (w *world) recvVotes(i int, r int, typ byte) {
 			w.deliver(i, &cs.VoteMessage{Vote: v}, j)
 		}
 	}
-	w.deliver(i, w.byzVote(r, typ), w.byz)
+	if byz != nil {
+		w.deliver(i, byz, w.byz)
+	}
 	rs := w.cl.Nodes[i].CS.GetRoundState()
 	if rs.Height == w.H && rs.Round == r {
 		if typ == types.VoteTypePrevote && rs.Step == cstypes.RoundStepPrevoteWait {
@@ -494,18 +673,12 @@ func (w *world) fetchBlock(i int) {
 	if rs.ProposalBlockParts == nil {
 		return
 	}
-	if rs.ProposalBlockParts.HasHeader(w.badParts.Header()) {
-		for k := 0; k < w.badParts.Total(); k++ {
-			w.deliver(i, &cs.BlockPartMessage{Height: w.H, Round: rs.Round, Part: w.badParts.GetPart(k)}, w.byz)
-		}
+	kb := w.known[string(rs.ProposalBlockParts.Header().Hash)]
+	if kb == nil || !kb.parts.IsComplete() {
 		return
 	}
-	for r, ms := range w.laterProp {
-		for _, m := range ms {
-			if bp, ok := m.(*cs.BlockPartMessage); ok && rs.ProposalBlockParts.HasHeader(partsHeaderOf(w.laterProp[r])) {
-				w.deliver(i, bp, w.honest[0])
-			}
-		}
+	for k := 0; k < kb.parts.Total(); k++ {
+		w.deliver(i, &cs.BlockPartMessage{Height: w.H, Round: rs.Round, Part: kb.parts.GetPart(k)}, kb.from)
 	}
 }
 
@@ -526,6 +699,7 @@ type nodeObs struct {
 	Step     string            `json:"step"`
 	PB       string            `json:"pb"`
 	LB       string            `json:"lb"`
+	VB       string            `json:"vb"`
 	PV       map[string]string `json:"pv"`
 	PC       map[string]string `json:"pc"`
 	Stored   string            `json:"stored"`
@@ -534,27 +708,36 @@ type nodeObs struct {
 	Restarts int               `json:"restarts"`
 }
 
+// nameID names a BlockID as the model does: the Byzantine validator's blocks by their
+// whole id (a twin shares the hash with B and differs in the part-set header), the
+// blocks of correct proposers by the round they were built in.
 func (w *world) nameID(id types.BlockID) string {
 	if id.IsZero() {
 		return "nil"
 	}
-	if id.Equals(w.badID) {
-		return "B"
+	for _, name := range []string{"B", "B2"} {
+		if bb := w.bz[name]; bb != nil && id.Equals(bb.id) {
+			return name
+		}
 	}
-	return "G"
+	if g, ok := w.gNames[string(id.PartsHeader.Hash)]; ok {
+		return g
+	}
+	return "G1"
 }
 
 // gIsB: the correct proposer of round 1 built, byte for byte, the block the round-0
 // proposer had built (same second, same mempool, same previous commit) - possible only
-// when B is the untouched control. The model calls what is voted from round 1 on "G".
+// when B is the untouched control and the world does not force distinct blocks. The
+// model calls what is voted from round 1 on "G1".
 func (w *world) gIsB() bool {
 	h := partsHeaderOf(w.laterProp[1])
-	return !h.IsZero() && h.Equals(w.badParts.Header())
+	return !w.distinctG && !h.IsZero() && h.Equals(w.badParts.Header())
 }
 
 func (w *world) rename(name string, round int) string {
 	if name == "B" && round >= 1 && w.gIsB() {
-		return "G"
+		return "G1"
 	}
 	return name
 }
@@ -563,10 +746,10 @@ func (w *world) nameBlock(b *types.Block, ps *types.PartSet) string {
 	if b == nil {
 		return "none"
 	}
-	if ps != nil && ps.HasHeader(w.badParts.Header()) && b.Hash() == w.badID.Hash {
-		return "B"
+	if ps == nil {
+		return "G1"
 	}
-	return "G"
+	return w.nameID(types.BlockID{Hash: b.Hash(), PartsHeader: ps.Header()})
 }
 
 func (w *world) observe(i int, maxRound int) nodeObs {
@@ -591,7 +774,7 @@ func (w *world) observe(i int, maxRound int) nodeObs {
 				o.Stored = w.rename(o.Stored, sc.Round())
 			}
 		} else {
-			o.Stored = "G"
+			o.Stored = "G1"
 		}
 	}
 	o.Applied = st.LastBlockHeight >= w.H || w.reapplied[i]
@@ -612,10 +795,11 @@ func (w *world) observe(i int, maxRound int) nodeObs {
 		o.Step = "commit"
 	}
 	o.Round = rs.Round
-	o.PB, o.LB = "none", "none"
+	o.PB, o.LB, o.VB = "none", "none", "none"
 	if rs.Height == w.H {
 		o.PB = w.rename(w.nameBlock(rs.ProposalBlock, rs.ProposalBlockParts), rs.Round)
 		o.LB = w.rename(w.nameBlock(rs.LockedBlock, rs.LockedBlockParts), rs.Round)
+		o.VB = w.rename(w.nameBlock(rs.ValidBlock, rs.ValidBlockParts), rs.Round)
 	}
 	return o
 }
